@@ -111,6 +111,27 @@ def dst_cases():
     return out
 
 
+def coarse_cases():
+    """deterministic: feeds coarser than hourly (3- and 6-hourly, accepted with a warning) in zones without clock changes, with one,
+    two and three of a day's readings missing; the feed runs one day past the meter (the last reading of a feed has no successor)"""
+    out = []
+    for tz, feed_tz, step in [("UTC", "UTC", 360), ("UTC", "Asia/Tokyo", 360), ("UTC", "Etc/GMT+3", 180)]:
+        per_day = 1440 // step
+        ndays = 12
+        n = (ndays + 1) * per_day
+        start = pd.Timestamp("2021-06-15", tz=tz)
+        vals = [str(Fraction(40 * 4 + (j * 11) % 170, 4)) for j in range(n)]
+        missing = [2 * per_day + 1,                                   # day 2: one reading missing
+                   4 * per_day + 1, 4 * per_day + 2,                  # day 4: two missing
+                   6 * per_day, 6 * per_day + 1, 6 * per_day + 2]     # day 6: three missing
+        if per_day > 4:
+            missing += [8 * per_day + k for k in range(per_day // 2 + 1)]    # day 8: just over half missing
+        for kind in ("daily",):
+            out.append(dict(tz=tz, feed_tz=feed_tz, step=step, start=start.isoformat(), ndays=ndays, meter_hour=0, meter_kind=kind,
+                            values=vals, missing=missing, cls="baseline", entry="from_series"))
+    return out
+
+
 def build(case):
     from opendsm.eemeter.models.daily.data import DailyBaselineData, DailyReportingData
     from opendsm.eemeter.models.billing.data import BillingBaselineData, BillingReportingData
@@ -257,7 +278,7 @@ def run(ctx):
     res = dict(evaluations=0, disagreements=[], oracle_failures=[], finding_instances={}, samples=[], hist={}, traces=0)
     sigs = set()
     lines, metas = [], []
-    for case in list(ctx.get("corpus", [])) + dst_cases():
+    for case in list(ctx.get("corpus", [])) + dst_cases() + coarse_cases():
         one_case(case, res, sigs, lines, metas)
     for _ in range(int((60 if not thorough else 1000) * scale)):
         case = gen_case(rng)
